@@ -31,13 +31,24 @@ struct A {
     idx: usize,
     fwd_seq: u32,
     fwd_recs: Arc<Mutex<Vec<OpRec>>>,
+    runs: u32,
+    run_limit: u32,
 }
 impl Actor for A {
-    type Args = (Arc<Mutex<Log>>, usize, Arc<Mutex<Vec<OpRec>>>);
+    type Args = (Arc<Mutex<Log>>, usize, Arc<Mutex<Vec<OpRec>>>, u32);
     type Error = std::convert::Infallible;
-    async fn on_start((log, idx, fwd_recs): Self::Args, _: &ActorRef<Self>) -> Result<Self, Self::Error> {
+    async fn on_start((log, idx, fwd_recs, run_limit): Self::Args, _: &ActorRef<Self>) -> Result<Self, Self::Error> {
         log.lock().unwrap().ev.push(Ev::Start);
-        Ok(A { log, idx, fwd_seq: 0, fwd_recs })
+        Ok(A { log, idx, fwd_seq: 0, fwd_recs, runs: 0, run_limit })
+    }
+    // an idle task that stays enabled for run_limit rounds (u32::MAX: for good)
+    async fn on_run(&mut self, _: &ActorWeak<Self>) -> Result<bool, Self::Error> {
+        if self.run_limit == 0 {
+            return Ok(false);
+        }
+        tokio::time::sleep(Duration::from_micros(150)).await;
+        self.runs += 1;
+        Ok(self.runs < self.run_limit)
     }
     async fn on_stop(&mut self, _: &ActorWeak<Self>, killed: bool) -> Result<(), Self::Error> {
         self.log.lock().unwrap().ev.push(Ev::Stop(killed));
@@ -132,7 +143,8 @@ fn main() {
             for _ in 0..nact {
                 let log = Arc::new(Mutex::new(Log::default()));
                 let cap = 1 + (lcg(&mut st) % 4) as usize;
-                let (r, j) = rsactor::spawn_with_mailbox_capacity::<A>((log.clone(), refs.len(), fwd_recs.clone()), cap);
+                let run_limit = match lcg(&mut st) % 4 { 0 => 0, 1 => 1 + (lcg(&mut st) % 20) as u32, 2 => u32::MAX, _ => 0 };
+                let (r, j) = rsactor::spawn_with_mailbox_capacity::<A>((log.clone(), refs.len(), fwd_recs.clone(), run_limit), cap);
                 if !all_ids.insert(r.identity().id) {
                     viol.push(format!("round {round}: identity {} handed out twice", r.identity().id));
                 }
@@ -141,6 +153,10 @@ fn main() {
                 logs.push(log);
             }
             let nsend = 2 + (lcg(&mut st) % 6) as u32;
+            // a calm round: no client stops or kills; the actors end after the clients are done,
+            // by stop() or by losing every reference - so everything accepted must be handled
+            let calm = lcg(&mut st) % 3 == 0;
+            let end_by_drop = calm && lcg(&mut st) % 2 == 0;
             let go = Arc::new(tokio::sync::Barrier::new(nsend as usize + 1));
             let mut clients = vec![];
             for sender in 0..nsend {
@@ -158,7 +174,10 @@ fn main() {
                         }
                         let a = (lcg(&mut s2) % refs2.len() as u64) as usize;
                         let r = &refs2[a];
-                        let k = lcg(&mut s2) % 100;
+                        let mut k = lcg(&mut s2) % 100;
+                        if calm && k < 8 {
+                            k += 8;
+                        }
                         let spin = (lcg(&mut s2) % 200) as u32;
                         if k < 4 {
                             let res = if r.kill().is_ok() { "ok" } else { "err" };
@@ -224,11 +243,14 @@ fn main() {
                 }
             }
             // end every actor gracefully and join
-            for r in refs.iter() {
-                let _ = tokio::time::timeout(Duration::from_secs(5), r.stop()).await;
+            let weaks: Vec<ActorWeak<A>> = refs.iter().map(ActorRef::downgrade).collect();
+            if !end_by_drop {
+                for r in refs.iter() {
+                    let _ = tokio::time::timeout(Duration::from_secs(5), r.stop()).await;
+                }
             }
             #[cfg(feature = "f-metrics")]
-            let keep: Vec<ActorRef<A>> = refs.iter().cloned().collect();
+            let keep: Vec<ActorRef<A>> = if end_by_drop { vec![] } else { refs.iter().cloned().collect() };
             drop(refs);
             let mut results: Vec<Option<bool>> = vec![];
             for (i, j) in joins.into_iter().enumerate() {
@@ -263,7 +285,7 @@ fn main() {
             for (i, log) in logs.iter().enumerate() {
                 let ev = log.lock().unwrap().ev.clone();
                 #[cfg(feature = "f-metrics")]
-                {
+                if !end_by_drop {
                     // C20: message_count = handlers entered (none panics or is cancelled here);
                     // readable after the end, avg <= max, snapshot = accessors
                     let entered = ev.iter().filter(|e| matches!(e, Ev::Handle { .. })).count() as u64;
@@ -304,6 +326,34 @@ fn main() {
                             viol.push(format!("round {round} actor {i}: sender {sender} handled {seq} after {}", *l));
                         }
                         *l = *seq;
+                    }
+                }
+                // C11: once the actor has ended and no strong reference is left, upgrade fails
+                if end_by_drop && weaks[i].upgrade().is_some() {
+                    viol.push(format!("round {round} actor {i}: upgrade succeeded after the actor ended with no strong reference left"));
+                }
+                // C11: is_alive() of a strong reference is false once the JoinHandle has resolved
+                #[cfg(feature = "f-metrics")]
+                if !end_by_drop && keep[i].is_alive() {
+                    viol.push(format!("round {round} actor {i}: is_alive() on a strong reference after the JoinHandle resolved"));
+                }
+                if calm {
+                    // C01 / C07: nobody stopped or killed this actor while the clients ran, so every
+                    // send found it alive and everything accepted is handled before on_stop(false)
+                    if stops.first() == Some(&true) || results[i] == Some(true) {
+                        viol.push(format!("round {round} actor {i}: ended as killed although nobody killed it"));
+                    }
+                    for r in recs.iter().filter(|r| r.actor == i) {
+                        let handled = seen.contains(&(r.sender, r.seq));
+                        let bad = match (r.kind, r.res.as_str()) {
+                            ("tell", "ok") | ("tell_to", "ok") => !handled,
+                            ("tell", _) | ("ask", "send") | ("ask", "recv") | ("ask_to", "send") | ("ask_to", "recv") | ("tell_to", "send") => true,
+                            _ => false,
+                        };
+                        if bad {
+                            viol.push(format!("round {round} actor {i} (calm round, ended by {}): {} ({},{}) returned {} and handled={handled}",
+                                              if end_by_drop { "dropping every reference" } else { "stop()" }, r.kind, r.sender, r.seq, r.res));
+                        }
                     }
                 }
                 for r in recs.iter().filter(|r| r.actor == i) {
